@@ -550,6 +550,10 @@ class MQTTProtocol(MQTTBaseProtocol):
             request = self.factory.queuePublishTx[cnx].popleft()
             if request.msgId:   # only form QoS 1 & 2
                 self.factory.windowPublish[cnx][request.msgId] = request
+                # retries are paced by the settings in force now that it is first sent
+                request.interval = IntervalLinear(initial=self._initialT,
+                                                  bandwith=self._bandwith,
+                                                  factor=self._factor)
             self._retryPublish(request, dup)
 
 
